@@ -45,6 +45,7 @@ cc <- 7
 close(cc)
 cn = []chan int64{nil}[0]
 module mo { v = 1; func f(x) { return x } }
+ty = make(type nty, 1)
 f0 = func() { return 1 }
 f1 = func(x) { return x }
 f5 = func(a, b, c, d, e) { return a }
